@@ -897,14 +897,14 @@ func main() {
 		emitDet(ops, obs, cl, nt, n)
 	}
 
-	nDet := f.Count(200, 4000)
+	nDet := f.Count(150, 2500)
 	for i := 0; i < nDet; i++ {
 		ops, obs, cl, nt := runDet(f.Seed, 100+i, nil)
 		emitDet(ops, obs, cl, nt, "")
 	}
 
 	// concurrent runs, `par` at a time
-	nConc := f.Count(40, 1200)
+	nConc := f.Count(32, 800)
 	par := 10
 	if f.Tier == "thorough" {
 		par = 16
